@@ -17,11 +17,12 @@ Four families of cases (idx % 4):
 Oracles: eigenvalues / matrices computed in the harness from the real-space matrices
 (vlib.gen_systems.bands, vlib.gen_soc.soc_H_ref / soc_SS_ref), never from Ham_SOC / SS of the system.
 """
+import copy
 import os
 import sys
 
 sys.path.insert(0, os.path.dirname(os.path.dirname(os.path.abspath(__file__))))
-from vlib import env, harness, gen_systems, gen_soc  # noqa: E402
+from vlib import env, harness, gen_systems, gen_soc, monitors  # noqa: E402
 import numpy as np  # noqa: E402
 
 PROP = "C25"
@@ -81,9 +82,17 @@ def case_double_spin(ctx, rng, idx):
     s0 = gen_systems.herm_system(rng, num_wann=nw, radius=rng.uniform(1.0, 2.3), keys=keys, centers=cmode,
                                  thin=rng.choice([0.0, 0.3]))
     s2 = gen_systems.copy_system(s0)
+    s2, hist = gen_systems.history_variant(rng, s2, which=gen_systems.HISTORIES_NO_DISK[int(rng.integers(4))])
+    if hist.startswith("ws_dist"):
+        s0 = copy.deepcopy(s2)    # do_ws_dist folds the R-vectors: the spinless reference is the system after it
+    used = bool(rng.random() < 0.5)
+    if used:
+        monitors.warm_caches(s2)   # a system that has been used before it is spin-doubled
     s2.double_spin()
     iR = s0.rvec.iRvec
-    wit = dict(kind="double_spin", nw=nw, nR=len(iR), keys=keys, centers=cmode)
+    wit = dict(kind="double_spin", history=hist, used_before=used, nw=nw, nR=len(iR), keys=keys, centers=cmode)
+    monitors.assert_no_stale_caches(ctx, s2, "double_spin", wit)
+    ctx.count(f"double_spin_history_{hist}")
     if s2.num_wann != 2 * nw:
         ctx.violation("double_spin:num_wann", f"num_wann={s2.num_wann}, expected {2 * nw}", wit)
         return
